@@ -229,7 +229,8 @@ class FloatH:
     """replay interpreter: inputs from a model, real (unshimmed) code, float comparison"""
     sym = False
 
-    def __init__(self, model, params=None, rtol=1e-6, fd_eps=1e-6):
+    def __init__(self, model, params=None, rtol=1e-6, fd_eps=1e-6, rand=None):
+        self.rand = rand          # random.Random: inputs absent from the model get random values (cross-check runs)
         self.model = dict(model)
         self.params = params or {}
         self.res = []
@@ -248,6 +249,12 @@ class FloatH:
                 v = float(Fraction(v)) if v not in ("True", "False") else (v == "True")
             return v
         self.missing.append(name)
+        if self.rand is not None:
+            v = round(self.rand.uniform(-1.5, 1.5), 3)
+            if default == 1.0 and v <= 0:          # positive / nonnegative inputs and leading quaternion entries
+                v = abs(v) + 0.125
+            self.model[name] = v
+            return v
         return default
 
     def real(self, name):
@@ -459,3 +466,17 @@ SymH.cone = _cone_sym
 FloatH.cone = _cone_float
 SymH.cone_build = _cone_build_sym
 FloatH.cone_build = _cone_build_float
+
+
+def _sparse_sym(self, a):
+    from .shims import SymMat
+    return SymMat(np.asarray(a, dtype=object))
+
+
+def _sparse_float(self, a):
+    from scipy.sparse import csc_array
+    return csc_array(np.asarray(a, dtype=float))
+
+
+SymH.sparse = _sparse_sym
+FloatH.sparse = _sparse_float
